@@ -18,9 +18,10 @@ import (
 	"github.com/evanw/esbuild/internal/logger"
 	"github.com/evanw/esbuild/internal/sourcemap"
 	"github.com/evanw/esbuild/pkg/api"
+	. "github.com/evanw/esbuild/verifharness/hlib"
 )
 
-func init() { families["c07"] = runC07 }
+func main() { Main("c07", runC07) }
 
 var vlqGrid = []int64{0, 1, -1, 2, -2, 15, -15, 16, -16, 31, -31, 32, -32, 511, -511, 512, -512, 1023, 1024, -1024,
 	16383, 16384, -16384, 524287, 524288, -524288, 1 << 24, -(1 << 24), 1<<31 - 1, -(1 << 31), 1 << 31, 1 << 40, -(1 << 40), 1<<53 - 1, -(1<<53 - 1), 1<<61 + 12345, -(1<<61 + 12345)}
@@ -62,9 +63,9 @@ func (a segAbs) coq() string {
 		return fmt.Sprintf("[%d;%d]", a.gl, a.gc)
 	}
 	if !a.hasName {
-		return fmt.Sprintf("[%d;%d;%s;%s;%s]", a.gl, a.gc, czi(a.s), czi(a.ol), czi(a.c))
+		return fmt.Sprintf("[%d;%d;%s;%s;%s]", a.gl, a.gc, CZi(a.s), CZi(a.ol), CZi(a.c))
 	}
-	return fmt.Sprintf("[%d;%d;%s;%s;%s;%s]", a.gl, a.gc, czi(a.s), czi(a.ol), czi(a.c), czi(a.n))
+	return fmt.Sprintf("[%d;%d;%s;%s;%s;%s]", a.gl, a.gc, CZi(a.s), CZi(a.ol), CZi(a.c), CZi(a.n))
 }
 
 // Independent decoder of a v3 mappings string (harness side; validated
@@ -132,7 +133,7 @@ func decodeMappings(m []byte) ([]segAbs, bool) {
 }
 
 func stateFields(s sourcemap.SourceMapState) string {
-	return fmt.Sprintf("[%s;%s;%s;%s;%s;%s]", czi(s.GeneratedLine), czi(s.GeneratedColumn), czi(s.SourceIndex), czi(s.OriginalLine), czi(s.OriginalColumn), czi(s.OriginalName))
+	return fmt.Sprintf("[%s;%s;%s;%s;%s;%s]", CZi(s.GeneratedLine), CZi(s.GeneratedColumn), CZi(s.SourceIndex), CZi(s.OriginalLine), CZi(s.OriginalColumn), CZi(s.OriginalName))
 }
 
 func randState(r *Rng, small bool) sourcemap.SourceMapState {
@@ -233,15 +234,8 @@ func fnoOf(i ast.Index32) int64 {
 func runC07(seed uint64, n int, tier string, outDir string) []*Stats {
 	r := NewRng(seed)
 	cf := NewCoqFile("From V Require Import Common.Base C07.Vlq C07.SpecMap C07.Mappings C07.Shift C07.Harness.")
-	st := newStats("c07", seed)
-	distinct := map[string]bool{}
-	note := func(kind, key string, nontrivial bool) {
-		st.Evaluations++
-		st.Histogram[kind]++
-		if nontrivial && !distinct[kind+":"+key] {
-			distinct[kind+":"+key] = true
-		}
-	}
+	st := NewStats("c07", seed)
+	note := st.Note
 
 	// --- vlq encode/decode
 	var items []string
@@ -258,12 +252,12 @@ func runC07(seed uint64, n int, tier string, outDir string) []*Stats {
 		junk = append(junk, ',') // sentinel: DecodeVLQ indexes past the end otherwise
 		all := append(append([]byte{}, enc...), junk...)
 		dv, dn := sourcemap.DecodeVLQ(all, 0)
-		items = append(items, fmt.Sprintf("(%s,%s,%s,%s,%d)", cz(v), cbytes(enc), cbytes(junk), cz(int64(dv)), dn))
+		items = append(items, fmt.Sprintf("(%s,%s,%s,%s,%d)", CZ(v), CBytes(enc), CBytes(junk), CZ(int64(dv)), dn))
 		note("vlq", fmt.Sprint(v), v != 0)
 		if dv != int(v) {
-			st.fail("vlq-roundtrip", v, dv, v)
+			st.Fail("vlq-roundtrip", v, dv, v)
 		}
-		st.sample(map[string]interface{}{"vlq": v, "enc": string(enc)})
+		st.Sample(map[string]interface{}{"vlq": v, "enc": string(enc)})
 	}
 	cf.AddCases("vlq_cases", "Z * bytes * bytes * Z * Z", "check_vlq", items)
 
@@ -284,7 +278,7 @@ func runC07(seed uint64, n int, tier string, outDir string) []*Stats {
 		}
 		b = append(b, ";,\""[r.Intn(3)])
 		dv, dn := sourcemap.DecodeVLQ(b, 0)
-		items = append(items, fmt.Sprintf("(%s,%s,%d)", cbytes(b), cz(int64(dv)), dn))
+		items = append(items, fmt.Sprintf("(%s,%s,%d)", CBytes(b), CZ(int64(dv)), dn))
 		note("dec", string(b), len(b) > 2)
 	}
 	cf.AddCases("dec_cases", "bytes * Z * Z", "check_dec", items)
@@ -297,7 +291,7 @@ func runC07(seed uint64, n int, tier string, outDir string) []*Stats {
 		lb := []byte{0, ';', '"', ',', 'A', 'z', '/'}[r.Intn(7)]
 		omit := r.Chance(20)
 		buf, off := sourcemap.VerifAppendMappingToBuffer(nil, lb, prev, cur, omit)
-		items = append(items, fmt.Sprintf("(%d,%s,%s,%s,%s,%s,%s,%s)", lb, stateFields(prev), cbool(prev.HasOriginalName), stateFields(cur), cbool(cur.HasOriginalName), cbool(omit), cbytes(buf), cz(fnoOf(off))))
+		items = append(items, fmt.Sprintf("(%d,%s,%s,%s,%s,%s,%s,%s)", lb, stateFields(prev), CBool(prev.HasOriginalName), stateFields(cur), CBool(cur.HasOriginalName), CBool(omit), CBytes(buf), CZ(fnoOf(off))))
 		note("append", string(buf), true)
 	}
 	cf.AddCases("app_cases", "Z * list Z * bool * list Z * bool * bool * bytes * Z", "check_app", items)
@@ -344,7 +338,7 @@ func runC07(seed uint64, n int, tier string, outDir string) []*Stats {
 			sourcemap.AppendSourceMapChunk(&j, prevEnd, start, ch.Buffer)
 			all := j.Done()
 			added := append([]byte{}, all[before:]...)
-			joinItems = append(joinItems, fmt.Sprintf("(%d,%s,%s,%s,%s,%s)", jl, stateFields(prevEnd), stateFields(start), cbytes(ch.Buffer.Data), cz(fnoOf(ch.Buffer.FirstNameOffset)), cbytes(added)))
+			joinItems = append(joinItems, fmt.Sprintf("(%d,%s,%s,%s,%s,%s)", jl, stateFields(prevEnd), stateFields(start), CBytes(ch.Buffer.Data), CZ(fnoOf(ch.Buffer.FirstNameOffset)), CBytes(added)))
 			note("join", string(ch.Buffer.Data), len(ch.Buffer.Data) > 4)
 			// expected absolute mappings of this chunk: rebased to the true
 			// position of the chunk's text inside the whole generated file
@@ -387,15 +381,15 @@ func runC07(seed uint64, n int, tier string, outDir string) []*Stats {
 		joined := append([]byte{}, j.Done()[1:]...)
 		got, gok := decodeMappings(joined)
 		if !gok || !sameAbs(got, expect) {
-			st.fail("join-positions", map[string]interface{}{"joined": string(joined), "text": string(full)}, fmt.Sprint(got), fmt.Sprint(expect))
+			st.Fail("join-positions", map[string]interface{}{"joined": string(joined), "text": string(full)}, fmt.Sprint(got), fmt.Sprint(expect))
 		}
 		var dl []string
 		for _, a := range expect {
 			dl = append(dl, a.coq())
 		}
-		mapItems = append(mapItems, fmt.Sprintf("(%s,%d,%d,%s)", cbytes(joined), k, totalNames+1, "["+strings.Join(dl, ";")+"]"))
+		mapItems = append(mapItems, fmt.Sprintf("(%s,%d,%d,%s)", CBytes(joined), k, totalNames+1, "["+strings.Join(dl, ";")+"]"))
 		note("joined-map", string(joined), len(got) > 1)
-		st.sample(map[string]interface{}{"joined_mappings": string(joined), "chunks": k})
+		st.Sample(map[string]interface{}{"joined_mappings": string(joined), "chunks": k})
 	}
 	cf.AddCases("join_cases", "Z * list Z * list Z * bytes * Z * bytes", "check_join", joinItems)
 
@@ -410,7 +404,7 @@ func runC07(seed uint64, n int, tier string, outDir string) []*Stats {
 		finItems = append(finItems, fc.coq)
 		note("finalize", fc.key, fc.nshifts > 1)
 		if fc.bad != "" {
-			st.fail("finalize-position", fc.key, fc.bad, "mapping column = true position of the same byte after substitution")
+			st.Fail("finalize-position", fc.key, fc.bad, "mapping column = true position of the same byte after substitution")
 		}
 		if len(fc.dec) > 0 {
 			mapItems = append(mapItems, fc.mapcoq)
@@ -465,8 +459,7 @@ func runC07(seed uint64, n int, tier string, outDir string) []*Stats {
 	}
 	cf.AddCases("map_cases", "bytes * Z * Z * list (list Z)", "check_map", mapItems)
 
-	st.Distinct = len(distinct)
-	st.Rule = "seeded generator (splitmix64 from VERIF_SEED): VLQ boundary grid + random values; random SourceMapState pairs; chunks produced by the real ChunkBuilder from random token layouts (CR/LF/CRLF/U+2028, astral and 2-byte characters) joined with the linker's bookkeeping; Finalize with shift lists built like substituteFinalPaths; sorted mapping lists for Find; api.Build marker programs for the glue stream. distinct_nontrivial = distinct (family,input) pairs excluding zero/empty inputs"
+	st.Finish("seeded generator (splitmix64 from VERIF_SEED): VLQ boundary grid + random values; random SourceMapState pairs; chunks produced by the real ChunkBuilder from random token layouts (CR/LF/CRLF/U+2028, astral and 2-byte characters) joined with the linker's bookkeeping; Finalize with shift lists built like substituteFinalPaths; sorted mapping lists for Find; api.Build marker programs for the glue stream. distinct_nontrivial = distinct (family,input) pairs excluding zero/empty inputs")
 	if err := os.WriteFile(filepath.Join(outDir, "c07_cases.v"), []byte(cf.String()), 0o644); err != nil {
 		panic(err)
 	}
@@ -478,7 +471,7 @@ func mappingCoq(m sourcemap.Mapping) string {
 	if m.OriginalName.IsValid() {
 		n = int64(m.OriginalName.GetIndex())
 	}
-	return fmt.Sprintf("[%d;%d;%d;%d;%d;%s]", m.GeneratedLine, m.GeneratedColumn, m.SourceIndex, m.OriginalLine, m.OriginalColumn, cz(n))
+	return fmt.Sprintf("[%d;%d;%d;%d;%d;%s]", m.GeneratedLine, m.GeneratedColumn, m.SourceIndex, m.OriginalLine, m.OriginalColumn, CZ(n))
 }
 
 // ---------------------------------------------------------------------------
@@ -640,7 +633,7 @@ func genFinalizeCase(r *Rng) *finCase {
 		sl = append(sl, fmt.Sprintf("[%d;%d;%d;%d]", s.Before.Lines, s.Before.Columns, s.After.Lines, s.After.Columns))
 	}
 	fc := &finCase{nshifts: len(shifts), key: string(data) + fmt.Sprint(shifts)}
-	fc.coq = fmt.Sprintf("([%s],%s,%s)", strings.Join(sl, ";"), cbytes(data), cbytes(res))
+	fc.coq = fmt.Sprintf("([%s],%s,%s)", strings.Join(sl, ";"), CBytes(data), CBytes(res))
 	// oracle: every mapping must now sit at the true position of the same byte
 	before, ok1 := decodeMappings(data)
 	after, ok2 := decodeMappings(res)
@@ -670,14 +663,14 @@ func genFinalizeCase(r *Rng) *finCase {
 	for _, a := range expect {
 		dl = append(dl, a.coq())
 	}
-	fc.mapcoq = fmt.Sprintf("(%s,%d,%d,%s)", cbytes(res), 1, 1, "["+strings.Join(dl, ";")+"]")
+	fc.mapcoq = fmt.Sprintf("(%s,%d,%d,%s)", CBytes(res), 1, 1, "["+strings.Join(dl, ";")+"]")
 	return fc
 }
 
 // ---------------------------------------------------------------------------
 // Glue stream: real builds of marker programs through the public API.
 
-var markerRe = regexp.MustCompile(`^["'`+"`"+`]?(mk[0-9]+|9[0-9]{6})`)
+var markerRe = regexp.MustCompile(`^["'` + "`" + `]?(mk[0-9]+|9[0-9]{6})`)
 var identRe = regexp.MustCompile(`^[A-Za-z_$][A-Za-z0-9_$]*`)
 
 type smJSON struct {
@@ -844,7 +837,7 @@ func glueSourceMap(r *Rng, st *Stats) []string {
 	st.Histogram["glue-build"]++
 	if len(res.Errors) > 0 {
 		st.Histogram["glue-build-error"]++
-		st.fail("glue-build-error", desc, res.Errors[0].Text, "no error")
+		st.Fail("glue-build-error", desc, res.Errors[0].Text, "no error")
 		return nil
 	}
 	outs := map[string][]byte{}
@@ -868,26 +861,26 @@ func glueSourceMap(r *Rng, st *Stats) []string {
 			}
 			dec, err := base64.StdEncoding.DecodeString(enc)
 			if err != nil {
-				st.fail("glue-inline-map-base64", desc, err.Error(), "valid base64")
+				st.Fail("glue-inline-map-base64", desc, err.Error(), "valid base64")
 				continue
 			}
 			if mapBytes != nil && string(mapBytes) != string(dec) {
-				st.fail("glue-inline-vs-external-differ", desc, nil, nil)
+				st.Fail("glue-inline-vs-external-differ", desc, nil, nil)
 			}
 			mapBytes = dec
 		}
 		if mapBytes == nil {
-			st.fail("glue-missing-map", desc, path, "a source map")
+			st.Fail("glue-missing-map", desc, path, "a source map")
 			continue
 		}
 		var sm smJSON
 		if err := json.Unmarshal(mapBytes, &sm); err != nil || sm.Version != 3 {
-			st.fail("glue-map-json", desc, string(mapBytes), "version 3 JSON")
+			st.Fail("glue-map-json", desc, string(mapBytes), "version 3 JSON")
 			continue
 		}
 		segs, ok := decodeMappings([]byte(sm.Mappings))
 		if !ok {
-			st.fail("glue-map-undecodable", desc, sm.Mappings, "decodable")
+			st.Fail("glue-map-undecodable", desc, sm.Mappings, "decodable")
 			continue
 		}
 		genLines := splitLinesSM(text)
@@ -897,12 +890,12 @@ func glueSourceMap(r *Rng, st *Stats) []string {
 			base := filepath.Base(s)
 			orig, ok := files[base]
 			if !ok {
-				st.fail("glue-unknown-source", desc, s, "one of the inputs")
+				st.Fail("glue-unknown-source", desc, s, "one of the inputs")
 				orig = ""
 			}
 			if opts.SourcesContent != api.SourcesContentExclude {
 				if i >= len(sm.SourcesContent) || sm.SourcesContent[i] == nil || *sm.SourcesContent[i] != orig {
-					st.fail("glue-sources-content", desc, s, "sourcesContent equals the original file text")
+					st.Fail("glue-sources-content", desc, s, "sourcesContent equals the original file text")
 				}
 			}
 			srcTexts = append(srcTexts, splitLinesSM(orig))
@@ -916,31 +909,31 @@ func glueSourceMap(r *Rng, st *Stats) []string {
 			}
 			checked++
 			if a.gl >= len(genLines) {
-				st.fail("glue-generated-line-range", desc, a, len(genLines))
+				st.Fail("glue-generated-line-range", desc, a, len(genLines))
 				continue
 			}
 			gtext, ok := atCol(genLines[a.gl], a.gc)
 			if !ok {
-				st.fail("glue-generated-col-range", desc, a, genLines[a.gl])
+				st.Fail("glue-generated-col-range", desc, a, genLines[a.gl])
 				continue
 			}
 			if a.s < 0 || a.s >= len(srcTexts) || a.ol < 0 || a.ol >= len(srcTexts[a.s]) {
-				st.fail("glue-original-line-range", desc, a, nil)
+				st.Fail("glue-original-line-range", desc, a, nil)
 				continue
 			}
 			otext, ok := atCol(srcTexts[a.s][a.ol], a.c)
 			if !ok {
-				st.fail("glue-original-col-range", desc, a, srcTexts[a.s][a.ol])
+				st.Fail("glue-original-col-range", desc, a, srcTexts[a.s][a.ol])
 				continue
 			}
 			if a.hasName {
 				if a.n < 0 || a.n >= len(sm.Names) {
-					st.fail("glue-name-range", desc, a, len(sm.Names))
+					st.Fail("glue-name-range", desc, a, len(sm.Names))
 					continue
 				}
 				id := identRe.FindString(otext)
 				if id != sm.Names[a.n] {
-					st.fail("glue-name-not-original-identifier", desc, map[string]interface{}{"mapping": a, "name": sm.Names[a.n], "original_at": clip(otext)}, "names[n] is the identifier at the original position")
+					st.Fail("glue-name-not-original-identifier", desc, map[string]interface{}{"mapping": a, "name": sm.Names[a.n], "original_at": clip(otext)}, "names[n] is the identifier at the original position")
 					continue
 				}
 			}
@@ -948,7 +941,7 @@ func glueSourceMap(r *Rng, st *Stats) []string {
 			if gm != nil {
 				om := markerRe.FindStringSubmatch(otext)
 				if om == nil || om[1] != gm[1] {
-					st.fail("glue-marker-mismatch", desc, map[string]interface{}{"mapping": a, "generated_at": clip(gtext), "original_at": clip(otext), "file": filepath.Base(path)}, "same marker token at both positions")
+					st.Fail("glue-marker-mismatch", desc, map[string]interface{}{"mapping": a, "generated_at": clip(gtext), "original_at": clip(otext), "file": filepath.Base(path)}, "same marker token at both positions")
 					continue
 				}
 				verified++
@@ -956,7 +949,7 @@ func glueSourceMap(r *Rng, st *Stats) []string {
 		}
 		st.Histogram["glue-mappings-checked"] += checked
 		st.Histogram["glue-markers-verified"] += verified
-		coqItems = append(coqItems, fmt.Sprintf("(%s,%d,%d,%s)", cbytes([]byte(sm.Mappings)), len(sm.Sources), len(sm.Names), "["+strings.Join(dl, ";")+"]"))
+		coqItems = append(coqItems, fmt.Sprintf("(%s,%d,%d,%s)", CBytes([]byte(sm.Mappings)), len(sm.Sources), len(sm.Names), "["+strings.Join(dl, ";")+"]"))
 		if len(st.Samples) < 8 {
 			st.Samples = append(st.Samples, map[string]interface{}{"glue_options": desc["options"], "output": filepath.Base(path), "mappings_prefix": clip(sm.Mappings), "markers_verified": verified})
 		}
